@@ -116,8 +116,8 @@ theorem h8_resendFixMsgIn (g0 : G8) (s : Sess) (stash : List (Int × InMsg)) (cu
     notification, and possibly a queued ResendRequest, into a logged-on state -/
 theorem logon_done (g0 : G8) (s x z : Sess) (nx : SState) (hl : s.st.isLogon = true) (hx : P true g0 s x)
     (hready : WK g0 s → Ready g0 x) (hnx : nx.loggedOn = true) (fr : Fr x z)
-    (hg : g8Of g0 z = c8o (g8Of g0 x) .onLogon)
-    (hq : z.toSend = x.toSend ∨ ∃ m', z.toSend = x.toSend ++ [m'] ∧ (m'.kind == "5") = false ∧ appFirst m' = false) :
+    (hg : WK g0 s → g8Of g0 z = c8o (g8Of g0 x) .onLogon)
+    (hq : ∀ g, Q g x.toSend → Q g z.toSend) :
     H8 g0 s (z, nx) := by
   have hc : nx.connected = true := by rw [SState.connected_eq, hnx]; rfl
   have heff : eff s.st nx = nx := by unfold eff; rw [SState.logon_not_logout _ hl]; rfl
@@ -128,7 +128,7 @@ theorem logon_done (g0 : G8) (s x z : Sess) (nx : SState) (hl : s.st.isLogon = t
     have hr := hready hW
     unfold Ready at hr
     unfold WK at hWx ⊢
-    rw [g8Of_setSt, hg, c8o_onLogon]
+    rw [g8Of_setSt, hg hW, c8o_onLogon]
     generalize g8Of g0 x = g at hWx hr
     have hQ : z.out = true → Q g z.toSend := by
       intro ho
@@ -137,9 +137,7 @@ theorem logon_done (g0 : G8) (s x z : Sess) (nx : SState) (hl : s.st.isLogon = t
         cases hini : x.cfg.initiator
         · rw [(hr hox).2 hini]; exact Q_nil _
         · exact hWx.queue hox (Or.inr ⟨hxl, hini⟩)
-      rcases hq with hq | ⟨m', hq, h5, ha⟩
-      · rw [hq]; exact hQx
-      · rw [hq]; exact Q_append _ _ _ hQx h5 ha
+      exact hq g hQx
     exact { ok := hWx.ok
             conn := (by show g.conn = z.out; rw [fr.out]; exact hWx.conn)
             cb := (by show true = (nx.loggedOn || nx.isLogout); rw [hnx]; rfl)
@@ -161,7 +159,7 @@ theorem logon_done (g0 : G8) (s x z : Sess) (nx : SState) (hl : s.st.isLogon = t
     have hox : x.out = true := by rw [← fr.out]; exact ho
     have := hSx.2 hox (by rw [hxl]; simp)
     show (g8Of g0 (z.setSt nx)).sentLogout = false
-    rw [g8Of_setSt, hg, c8o_onLogon]; exact this
+    rw [g8Of_setSt, hg hS.1, c8o_onLogon]; exact this
 
 theorem h8_shutdownWithReason {b : Bool} (g0 : G8) (s x : Sess) (m : InMsg) (incr : Bool) (h : P b g0 s x) :
     H8 g0 s (shutdownWithReason x m incr) := by
@@ -176,6 +174,36 @@ theorem sendResendRequest_is (y : Sess) (a b : Int) : ∃ f, (sendResendRequest 
   dsimp only
   split <;> exact ⟨_, rfl⟩
 
+/-- the evaluation of the peer's tag 789 while the state tag still is `logon` (the handshake is being completed): nothing;
+    or the gap fill, written behind the Logon with the queue dropped (EnqueueBytesAndSend while not logged on) or — without
+    a connection — left alone in the queue -/
+theorem nxEval_logon (g0 : G8) (y : Sess) (m : InMsg) (ns : Int) (hyl : y.st.loggedOn = false) :
+    Fr y (nxEval y m ns).1 ∧
+    (((nxEval y m ns).1.toSend = y.toSend ∧ g8Of g0 (nxEval y m ns).1 = g8Of g0 y) ∨
+     ∃ m', (m'.kind == "5") = false ∧ appFirst m' = false ∧
+       (y.out = true → (nxEval y m ns).1.toSend = [] ∧ g8Of g0 (nxEval y m ns).1 = wr (g8Of g0 y) [m']) ∧
+       (y.out = false → (nxEval y m ns).1.toSend = [m'] ∧ g8Of g0 (nxEval y m ns).1 = g8Of g0 y)) := by
+  have hk : ∀ o : OutMsg, (o.kind == "5") = false → appFirst o = false →
+      Fr y (enqueueAndSend y o) ∧
+      (((enqueueAndSend y o).toSend = y.toSend ∧ g8Of g0 (enqueueAndSend y o) = g8Of g0 y) ∨
+       ∃ m', (m'.kind == "5") = false ∧ appFirst m' = false ∧
+         (y.out = true → (enqueueAndSend y o).toSend = [] ∧ g8Of g0 (enqueueAndSend y o) = wr (g8Of g0 y) [m']) ∧
+         (y.out = false → (enqueueAndSend y o).toSend = [m'] ∧ g8Of g0 (enqueueAndSend y o) = g8Of g0 y)) := by
+    intro o h5 ha
+    have hkq : y.keptQueue = [] := by unfold Sess.keptQueue; rw [hyl]; rfl
+    cases enqueueAndSend_spec g0 y o with
+    | refused hs => exact ⟨hs.fr, Or.inl ⟨hs.q, hs.g8 g0⟩⟩
+    | sent m' hk hf fr hh =>
+      rw [hkq] at hh
+      refine ⟨fr, Or.inr ⟨m', by rw [hk]; exact h5, by unfold appFirst at ha ⊢; rw [hk, hf]; exact ha, ?_, ?_⟩⟩
+      · intro ho; rw [ho] at hh; simpa using hh
+      · intro ho; rw [ho] at hh; simpa using hh
+  unfold nxEval
+  repeat' split
+  all_goals first
+    | exact ⟨Fr.refl y, Or.inl ⟨rfl, rfl⟩⟩
+    | exact hk _ (gapFillRe_ok _ _ _ _).1 (gapFillRe_ok _ _ _ _).2
+
 theorem h8_logonFixMsgIn (g0 : G8) (s : Sess) (m : InMsg) (hl : s.st.isLogon = true) : H8 g0 s (logonFixMsgIn s m) := by
   unfold logonFixMsgIn
   split
@@ -183,7 +211,7 @@ theorem h8_logonFixMsgIn (g0 : G8) (s : Sess) (m : InMsg) (hl : s.st.isLogon = t
   · rename_i hk
     have hk' : kindOf m = "A" := by simpa using hk
     have hadm : isAdminKind (kindOf m) = true := by rw [hk']; decide
-    rcases handleLogon_shape g0 s m hadm with ⟨e, he, hnt, hp⟩ | ⟨x, hx, hready, heq, n, hn⟩
+    rcases handleLogon_shape g0 s m hadm with ⟨e, he, hnt, hp⟩ | ⟨x, ns, hx, hready, heq, n, hn⟩
     · generalize handleLogon s m = r at he hp
       obtain ⟨s', o⟩ := r
       dsimp only at he hp
@@ -194,23 +222,55 @@ theorem h8_logonFixMsgIn (g0 : G8) (s : Sess) (m : InMsg) (hl : s.st.isLogon = t
       · rename_i heq; cases heq; exact h8_shutdownWithReason g0 s _ m false hp
       · rename_i heq; cases heq; cases hnt
       · rename_i heq; cases heq; exact H8.down hp
-    · have hy : Fr x (((x.setSentReset false).emit (.armPeer (1200 * x.hb))).emit .onLogon) := ⟨rfl, rfl, rfl, rfl, rfl⟩
-      have hgy : g8Of g0 (((x.setSentReset false).emit (.armPeer (1200 * x.hb))).emit .onLogon) = c8o (g8Of g0 x) .onLogon := by
+    · rw [heq]
+      have hxl' : x.st.loggedOn = false := by rw [hx.fr.st]; exact SState.logon_not_loggedOn _ hl
+      have hy0 : Fr x (((x.setSentReset false).emit (.armPeer (1200 * x.hb))).emit .onLogon) := ⟨rfl, rfl, rfl, rfl, rfl⟩
+      have hgy0 : g8Of g0 (((x.setSentReset false).emit (.armPeer (1200 * x.hb))).emit .onLogon) = c8o (g8Of g0 x) .onLogon := by
         rw [g8Of_emit, g8Of_emit]; rfl
-      rw [heq]
-      rcases logonFinish_spec x m n hn with h | ⟨a, b, h⟩
+      have hq0 : (((x.setSentReset false).emit (.armPeer (1200 * x.hb))).emit .onLogon).toSend = x.toSend := rfl
+      have hspec := logonFinish_spec x m ns n hn
+      dsimp only at hspec
+      generalize ((x.setSentReset false).emit (.armPeer (1200 * x.hb))).emit .onLogon = y0 at hy0 hgy0 hq0 hspec
+      obtain ⟨fy, hcase⟩ := nxEval_logon g0 y0 m ns (by rw [hy0.st]; exact hxl')
+      have hy : Fr x (nxEval y0 m ns).1 := hy0.trans fy
+      have hgy : WK g0 s → g8Of g0 (nxEval y0 m ns).1 = c8o (g8Of g0 x) .onLogon := by
+        intro hW
+        rcases hcase with ⟨_, hg⟩ | ⟨m', h5, ha, hc1, hc2⟩
+        · rw [hg, hgy0]
+        · cases ho : y0.out
+          · rw [(hc2 ho).2, hgy0]
+          · rw [(hc1 ho).2, hgy0]
+            have hox : x.out = true := by rw [← hy0.out]; exact ho
+            have hWx := hx.w hW
+            have hr := hready hW (SState.logon_not_loggedOn _ hl)
+            unfold Ready at hr
+            unfold WK at hWx
+            have := wr_quiet (c8o (g8Of g0 x) .onLogon) [m'] (by rw [c8o_onLogon]; exact hWx.ok)
+              (by rw [c8o_onLogon]; show (g8Of g0 x).conn = true; rw [hWx.conn]; exact hox)
+              (by rw [c8o_onLogon]; exact (hr hox).1)
+              (fun z hz => by simp only [List.mem_singleton] at hz; subst hz; exact h5)
+              (fun z hz hap => by simp only [List.mem_singleton] at hz; subst hz; rw [ha] at hap; cases hap)
+            exact this
+      have hyq : ∀ g, Q g x.toSend → Q g (nxEval y0 m ns).1.toSend := by
+        intro g hQ
+        rcases hcase with ⟨hq, _⟩ | ⟨m', h5, ha, hc1, hc2⟩
+        · rw [hq, hq0]; exact hQ
+        · cases ho : y0.out
+          · rw [(hc2 ho).1]; exact Q_append g [] m' (Q_nil g) h5 ha
+          · rw [(hc1 ho).1]; exact Q_nil g
+      rcases hspec with h | ⟨a, b, h⟩
       · rw [h]
         dsimp only
-        exact logon_done g0 s x _ _ hl hx (fun hW => hready hW (SState.logon_not_loggedOn _ hl)) rfl (hy.trans (fr_incrTarget _)) (by rw [(sil_incrTarget _).g8 g0, hgy]) (Or.inl rfl)
+        exact logon_done g0 s x _ _ hl hx (fun hW => hready hW (SState.logon_not_loggedOn _ hl)) rfl (hy.trans (fr_incrTarget _))
+          (fun hW => by rw [(sil_incrTarget _).g8 g0, hgy hW]) hyq
       · rw [h]
         dsimp only
-        generalize hyy : ((x.setSentReset false).emit (.armPeer (1200 * x.hb))).emit .onLogon = y at hy hgy
-        have hyq : y.toSend = x.toSend := by rw [← hyy]; rfl
+        generalize (nxEval y0 m ns).1 = y at hy hgy hyq
         have hsp : ∀ mm : OutMsg, (mm.kind == "5") = false → appFirst mm = false →
             Fr y (sendInReplyTo y mm) ∧ g8Of g0 (sendInReplyTo y mm) = g8Of g0 y ∧
             ((sendInReplyTo y mm).toSend = y.toSend ∨ ∃ m', (sendInReplyTo y mm).toSend = y.toSend ++ [m'] ∧ (m'.kind == "5") = false ∧ appFirst m' = false) := by
           intro mm h5 ha
-          have hyl : y.st.loggedOn = false := by rw [hy.st, hx.fr.st]; exact SState.logon_not_loggedOn _ hl
+          have hyl : y.st.loggedOn = false := by rw [hy.st]; exact hxl'
           cases sendInReplyTo_spec g0 y mm with
           | refused hs => exact ⟨hs.fr, hs.g8 g0, Or.inl hs.q⟩
           | sent m' hk hf fr hh =>
@@ -221,8 +281,11 @@ theorem h8_logonFixMsgIn (g0 : G8) (s : Sess) (m : InMsg) (hl : s.st.isLogon = t
         obtain ⟨ff, hff⟩ := sendResendRequest_is y b (a - 1)
         obtain ⟨f1, f2, f3⟩ := hsp (mkOut "2" ff) rfl (appFirst_admin _ rfl)
         rw [← hff] at f1 f2 f3
-        refine logon_done g0 s x _ _ hl hx (fun hW => hready hW (SState.logon_not_loggedOn _ hl)) rfl (hy.trans f1) (by rw [f2, hgy]) ?_
-        rw [← hyq]; exact f3
+        refine logon_done g0 s x _ _ hl hx (fun hW => hready hW (SState.logon_not_loggedOn _ hl)) rfl (hy.trans f1)
+          (fun hW => by rw [f2, hgy hW]) (fun g hQ => ?_)
+        rcases f3 with f3 | ⟨m', f3, h5, ha⟩
+        · rw [f3]; exact hyq g hQ
+        · rw [f3]; exact Q_append _ _ _ (hyq g hQ) h5 ha
 
 /-! ## 9. what `setState` is handed: handler outcomes with the real next state -/
 
